@@ -40,6 +40,10 @@ class PyprojectWriter(DependencyWriter):
         diff, added_line_nums = create_diff_and_linenums(
             tomlkit.dumps(original).split("\n"), tomlkit.dumps(pyproject).split("\n")
         )
+        if len(added_line_nums) < len(dependencies):
+            # nothing (or not everything) could be added, e.g. the key already exists
+            logger.debug("Unable to add dependencies to pyproject.toml file.")
+            return None
 
         if not dry_run:
             with open(self.path, "w", encoding="utf-8", newline="") as f:
